@@ -209,6 +209,9 @@ def r07_3_references(chk):
             continue
         m = mem[0]
         terms = chain(e) + [m[2]]
+        # (values drawn from a package generator - also inside a generator expression - come from what it iterates)
+        from ..terms import generator_sources as _gsrc
+        terms = terms + [t2 for t in list(terms) for t2 in _gsrc(chk.terms, cs, t)]
         if any(contains(t, lambda x: x[0] == "attr" and x[2] == "attributes") for t in terms):
             walkers.append((e, m, conds))
         elif any(contains(t, lambda x: x[0] == "attr" and x[2] == "no_format_object") for t in terms):
@@ -234,10 +237,16 @@ def r07_3_references(chk):
         filtered = any(x[0] == "comp" and any(cc for _, _, cc in x[3]) for t in srcs for x in subterms(t))
         foreign = any(contains(t, lambda x: x[0] == "attr" and x[2] == "physical_file") for t in srcs)
         return has_sets and has_items and not filtered and not foreign
+    from ..terms import generator_sources as _gsrc2
     for e, m, conds in walkers:
         chk.consult(e.func)
         name = e.func.short
-        terms = chain(e) + [m[2]]
+        # (what a package generator in the chain yields comes from what it iterates, under its own conditions)
+        srcs_ = chain(e) + [t2 for t in chain(e) for t2 in _gsrc2(chk.terms, cs, t)]
+        terms = srcs_ + [m[2]]
+        conds = conds + [c2 for t in srcs_ for x in subterms(t) if x[0] == "comp" for _, _, cc in x[3] for c2 in cc
+                         if c2 not in conds]
+
         def over_attributes(it):
             return (it[0] == "attr" and it[2] == "attributes") or \
                 (is_call(it, ("values", "items")) and it[1][1][0] == "attr" and it[1][1][2] == "attributes")
@@ -270,7 +279,7 @@ def r07_3_references(chk):
         chk.require(own_complete(m[3]), "R07.3", f"own-items-complete:{name}",
                     f"the set of own objects `{pp(m[3])[:80]}` is not built from all items of all sets of the logical "
                     f"file's own registry", e.where)
-        own_iter = any(contains(t, A(SELF, "_eflr_sets")) or own_complete(t) for t in chain(e))
+        own_iter = any(contains(t, A(SELF, "_eflr_sets")) or own_complete(t) for t in srcs_)
         chk.require(own_iter, "R07.3", f"walk-over-own-objects:{name}",
                     "the walk does not iterate over the objects of the logical file's own registry", e.where)
         chk.require(any(own_complete(n[1][3]) for n in nf_checks), "R07.3", f"no-format-objects-covered:{name}",
@@ -283,7 +292,8 @@ def r07_3_references(chk):
                     f"check-not-bypassable:{name}", "the membership check can return early", e.func.where)
     # frame channels: the existing dedicated check
     ccf = lf.lookup("_check_channels_assigned_to_frames")
-    chk.require(ccf is not None and ccf in cg.callees(co), "R07.3", "frame-channels-checked",
+    from ..terms import unconditionally_calls
+    chk.require(ccf is not None and unconditionally_calls(chk.terms, co, ccf), "R07.3", "frame-channels-checked",
                 "frame channels are no longer checked for being registered in the logical file", co.where)
     # check_objects on the write path before generation: C17 R17.6 has the dominance proof; here: reachable from write
     write = ix.get_method("DLISFile", "write")
